@@ -32,6 +32,7 @@ import (
 	"github.com/AdguardTeam/AdGuardDNS/internal/profiledb"
 	"github.com/AdguardTeam/AdGuardDNS/internal/querylog"
 	"github.com/AdguardTeam/golibs/container"
+	"github.com/AdguardTeam/golibs/errors"
 	"github.com/AdguardTeam/golibs/logutil/slogutil"
 	"github.com/AdguardTeam/golibs/netutil"
 	"github.com/miekg/dns"
@@ -74,6 +75,12 @@ type c10Rec struct {
 	HashMatch  []string
 	Errors     []string
 
+	// AutoDevice records the automatic devices created through the profile
+	// database.  The device lookup runs before the access check; whether a
+	// device created by a request that is then dropped counts as a "trace"
+	// is not decided by the statement, so this is not part of the verdict.
+	AutoDevice []string
+
 	// Rate limiter calls are recorded but are not part of the "no trace"
 	// verdict (the statement does not name them); they are part of the
 	// differential observation of served requests.
@@ -104,9 +111,9 @@ func (r *c10Rec) touched() (stages []string) {
 
 // String is the canonical form of everything recorded.
 func (r *c10Rec) String() string {
-	return fmt.Sprintf("up=%q ql=%q bill=%q rs=%q db=%q fs=%q freq=%q fresp=%q ck=%q hm=%q errs=%q rl=%d/%d",
+	return fmt.Sprintf("up=%q ql=%q bill=%q rs=%q db=%q fs=%q freq=%q fresp=%q ck=%q hm=%q errs=%q auto=%q rl=%d/%d",
 		r.Upstream, r.QueryLog, r.Billing, r.RuleStat, r.DNSDB, r.FltStorage, r.FltReq, r.FltResp,
-		r.DNSCheck, r.HashMatch, r.Errors, r.RLCheck, r.RLCount)
+		r.DNSCheck, r.HashMatch, r.Errors, r.AutoDevice, r.RLCheck, r.RLCount)
 }
 
 // ---- Cache manager that lets the harness see the sizes of the caches --------
@@ -176,7 +183,36 @@ type c10Config struct {
 	// access.DefaultProfile built from PA).
 	Prof string        `json:"prof"`
 	PA   c10ProfAccess `json:"pa"`
+
+	// Msg makes the profile's message configuration invalid, so that
+	// dnsmsg.NewConstructor fails for it in ratelimitmw.newRequestInfo:
+	// "negttl" (FilteredResponseTTL < 0) or "nilmode" (nil BlockingMode).
+	Msg string `json:"msg,omitempty"`
+
+	// DB changes the device lookup: "error" makes the profile database fail
+	// with an error that is not a not-found error; "authfail" gives the
+	// device DoH-only authentication, which fails on plain DNS and DoT;
+	// "auto" enables automatic devices on the profile (requests then carry a
+	// human-readable id of a device that does not exist yet).
+	DB string `json:"db,omitempty"`
 }
+
+// profileKnown reports whether a non-anonymous request is served as its
+// profile's under conf.
+func (conf c10Config) profileKnown() bool {
+	return conf.Prof != "none" && conf.DB != "error" && conf.DB != "authfail"
+}
+
+const (
+	// c10HumanSNI is the TLS server name of a request with a human-readable
+	// device id for which no device exists yet.
+	c10HumanSNI = "otr-prof1-myphone." + c10DevDomain
+
+	c10AutoDevID agd.DeviceID = "auto1"
+)
+
+// c10DBError is the scripted profile-database failure.
+const c10DBError errors.Error = "c10: scripted profile database failure"
 
 func c10Prefixes(ss []string) (ps []netip.Prefix) {
 	for _, s := range ss {
@@ -341,11 +377,60 @@ func c10NewStackWith(conf c10Config, prof *agd.Profile, dev *agd.Device) (s *c10
 		}
 	}
 
+	if prof == nil && s.prof != nil {
+		switch conf.Msg {
+		case "":
+		case "negttl":
+			s.prof.FilteredResponseTTL = -1 * time.Second
+		case "nilmode":
+			s.prof.BlockingMode = nil
+		default:
+			vrt.Fatalf("bad msg kind %q", conf.Msg)
+		}
+		switch conf.DB {
+		case "", "error":
+		case "authfail":
+			s.dev.Auth = &agd.AuthSettings{Enabled: true, DoHAuthOnly: true, PasswordHash: agdpasswd.AllowAuthenticator{}}
+		case "auto":
+			s.prof.AutoDevicesEnabled = true
+		default:
+			vrt.Fatalf("bad db kind %q", conf.DB)
+		}
+	}
+
 	notFound := func() (*agd.Profile, *agd.Device, error) { return nil, nil, profiledb.ErrDeviceNotFound }
 	db := agdtest.NewProfileDB()
+	db.OnProfileByHumanID = func(_ context.Context, id agd.ProfileID, _ agd.HumanIDLower) (*agd.Profile, *agd.Device, error) {
+		if s.prof == nil || s.anon || id != c10ProfID {
+			return nil, nil, profiledb.ErrProfileNotFound
+		}
+
+		// The profile exists, the device does not (yet).
+		return nil, nil, profiledb.ErrDeviceNotFound
+	}
+	db.OnCreateAutoDevice = func(
+		_ context.Context, id agd.ProfileID, humanID agd.HumanID, _ agd.DeviceType,
+	) (*agd.Profile, *agd.Device, error) {
+		// As profiledb.Default.CreateAutoDevice: only for existing profiles
+		// with the feature enabled; then the backend creates the device.
+		if s.prof == nil || id != c10ProfID || !s.prof.AutoDevicesEnabled {
+			return nil, nil, profiledb.ErrProfileNotFound
+		}
+		rec.AutoDevice = append(rec.AutoDevice, fmt.Sprintf("%s/%s", id, humanID))
+
+		return s.prof, &agd.Device{
+			Auth:             &agd.AuthSettings{Enabled: false, PasswordHash: agdpasswd.AllowAuthenticator{}},
+			ID:               c10AutoDevID,
+			Name:             agd.DeviceName(humanID),
+			HumanIDLower:     agd.HumanIDToLower(humanID),
+			FilteringEnabled: true,
+		}, nil
+	}
 	db.OnProfileByLinkedIP = func(_ context.Context, ip netip.Addr) (*agd.Profile, *agd.Device, error) {
 		if s.prof == nil || s.anon {
 			return notFound()
+		} else if conf.DB == "error" {
+			return nil, nil, c10DBError
 		}
 
 		return s.prof, s.dev, nil
@@ -353,6 +438,8 @@ func c10NewStackWith(conf c10Config, prof *agd.Profile, dev *agd.Device) (s *c10
 	db.OnProfileByDeviceID = func(_ context.Context, id agd.DeviceID) (*agd.Profile, *agd.Device, error) {
 		if s.prof == nil || s.anon || id != c10DevID {
 			return notFound()
+		} else if conf.DB == "error" {
+			return nil, nil, c10DBError
 		}
 
 		return s.prof, s.dev, nil
@@ -546,6 +633,10 @@ type c10Query struct {
 	// ECS, if not empty, is the prefix of an EDNS Client Subnet option.
 	ECS string `json:"ecs,omitempty"`
 
+	// SNI, if not empty, is the TLS server name of a DoT request (default: the
+	// device id of the profile's device).
+	SNI string `json:"sni,omitempty"`
+
 	// Anonymous makes the request carry no device identification.
 	Anonymous bool `json:"anonymous,omitempty"`
 }
@@ -575,6 +666,10 @@ type c10Obs struct {
 	Rec     string
 	Touched []string
 	Cached  int
+
+	// AutoDevices is the number of automatic devices created (not part of
+	// the verdict).
+	AutoDevices int
 }
 
 func (o *c10Obs) String() string {
@@ -610,7 +705,9 @@ func (s *c10Stack) serve(q c10Query, id uint16) (o *c10Obs) {
 		w.laddr = net.TCPAddrFromAddrPort(netip.MustParseAddrPort(c10SrvDoTAddr))
 		w.raddr = &net.TCPAddr{IP: ip, Port: 40000}
 		si = &dnsserver.ServerInfo{Name: "srv_dot", Addr: c10SrvDoTAddr, Proto: dnsserver.ProtoDoT}
-		if !q.Anonymous {
+		if q.SNI != "" {
+			sri.TLSServerName = q.SNI
+		} else if !q.Anonymous {
 			sri.TLSServerName = c10DevSNI
 		}
 	}
@@ -643,7 +740,7 @@ func (s *c10Stack) serve(q c10Query, id uint16) (o *c10Obs) {
 	if p := vrt.Catch(func() { err = h.ServeDNS(ctx, w, req) }); p != "" {
 		err = fmt.Errorf("PANIC: %s", p)
 	}
-	o = &c10Obs{Rec: s.rec.String(), Touched: s.rec.touched(), Cached: s.caches.items()}
+	o = &c10Obs{Rec: s.rec.String(), Touched: s.rec.touched(), Cached: s.caches.items(), AutoDevices: len(s.rec.AutoDevice)}
 	for _, m := range w.writes {
 		o.Writes = append(o.Writes, vdns.Canon(m, true)+" opt="+vdns.OPTString(m))
 	}
